@@ -2,6 +2,7 @@
 EXTENDS Lifetimes, Json
 AllParamKinds == {"opq", "optopq", "slice", "opqlt", "st1", "st2", "st2b", "st2w", "nst2", "stv", "stvo", "pself"}
 EmitGetters == PrintT(<<"GETTERS", ToJson([k \in DOMAIN StructFields |-> [l \in {"p", "q"} |-> FieldsFor(k, l)]])>>)
+               /\ PrintT(<<"NESTED", ToJson([k \in DOMAIN StructFields |-> [l \in {"p", "q"} |-> NestedFor(k, l)]])>>)
                /\ PrintT(<<"BUFFERS", ToJson([k \in DOMAIN StructFields |-> [l \in {"p", "q"} |-> BuffersFor(k, l)]])>>)
 AllRetKinds == {"ropq", "roptopq", "rslice", "rbox", "rst1", "rst2", "ropqlt", "rerr1", "rwerr1", "rokerr"}
 SmallParamKinds == {"opq", "slice", "opqlt", "st2b"}
